@@ -8,8 +8,15 @@ another tree); none of that may show in a tree obtained earlier or later from th
 is independent of the implementation: the generator (shapes are read off the INDEPENDENT reader's tree) and the
 independent parser table for the model.
 
-case : {'kind': 'reparse', 'texts': [str..], 'steps': [step..]}
+A call that RAISES leaves nothing behind: the text was not well-formed, cannot be encoded (a lone surrogate), is too
+large for the parser variant asked for, or its root does not meet validated_element's requirement.  Such a call hands
+out nothing, raises the documented exception, changes no tree - and the NEXT calls behave as in a fresh process.
+
+case : {'kind': 'reparse', 'texts': [text..], 'steps': [step..]}
+text : str | [part..] with part = str | [str, n] (n repetitions) | [code point]   (long / unencodable texts stay small in a replay file)
 step : ['parse', via, ti]                      hand out a tree for texts[ti]; via in VIAS
+     | ['fail', via, ti, why]                  the same call on a text / with a requirement for which it must raise; via in VIAS or
+                                               FAIL_VIAS; why (the generator's intention, the oracle classifies the text itself) in EXC
      | ['nce', huge, ti]                       NCElement(RPCReply(texts[ti]), <namespace-stripping XSLT>, huge_tree): its document
      | ['parse_root', ti, None | [name, value]] parse_root(texts[ti]); the caller then sets name=value on the attrib it got
      | ['replace', k, path, old, new] | ['sub_ele', k, path, tag, attrs] | ['sub_ele_ns', k, path, tag, ns, attrs]   (xml_ helpers)
@@ -34,6 +41,46 @@ VIAS = {
 }
 EDITS = ('replace', 'sub_ele', 'sub_ele_ns', 'set', 'text', 'tail', 'remove', 'move')
 HELPERS = ('replace', 'sub_ele', 'sub_ele_ns')
+
+# vias that exist only to fail: validated_element with a requirement the root does not meet
+FAIL_VIAS = {'validated_wrong_tag': (False, False), 'validated_missing_attr': (False, False)}
+WRONG_TAGS = ['{urn:no-such}zz', 'zz-not-the-root']
+MISSING_ATTRS = ['no-such-attribute', ['nor-this', '{urn:no-such}nor-that']]
+# why a call must raise -> the documented exception (class name): str.encode / lxml.etree / ncclient.xml_
+EXC = {'encode': 'UnicodeEncodeError', 'syntax': 'XMLSyntaxError', 'oversized': 'XMLSyntaxError', 'requirement': 'XMLError'}
+CHUNK = 1 << 16                 # documents longer than this are 'long': feeding a parser piecewise would matter
+TEXT_LIMIT = 10000000           # libxml2 XML_MAX_TEXT_LENGTH: a longer text node needs huge_tree (XML_PARSE_HUGE)
+MODEL_GOOD_MAX = 4096           # trees of longer texts are compared with the independent reader only, not sent to the model
+MODEL_BAD_MAX = 300000          # rejected texts longer than this are not sent to the model
+
+
+def text_of(t):
+    """the text a 'texts' entry stands for"""
+    if isinstance(t, str): return t
+    return ''.join(p if isinstance(p, str) else chr(p[0]) if len(p) == 1 else p[0] * p[1] for p in t)
+
+
+def longest(exp):
+    """octets of the longest single character-data / attribute value / comment of an independent reading"""
+    if exp[0] != 0: return max([len(x) for x in exp[1:] if isinstance(x, bytes)] or [0])
+    return max([len(a[1]) for a in exp[2]] + [longest(k) for k in exp[3]] + [0])
+
+
+def why_fails(text, via, huge, exp):
+    """None if the call must hand out a tree, else why it must raise - decided from the text (and the independent
+    reading `exp` of it, None = rejected), never from what the implementation does"""
+    try: text.encode('utf-8')
+    except UnicodeEncodeError: return 'encode'
+    if exp is None: return 'syntax'
+    if not huge and longest(exp) > TEXT_LIMIT: return 'oversized'
+    if via == 'validated_wrong_tag':
+        u, l = exp[1]
+        if ('{%s}%s' % (u[0].decode(), l.decode()) if u else l.decode()) not in WRONG_TAGS: return 'requirement'
+    if via == 'validated_missing_attr':
+        have = set(('{%s}%s' % (a[0][0][0].decode(), a[0][1].decode()) if a[0][0] else a[0][1].decode()) for a in exp[2])
+        if any(not (set([r] if isinstance(r, str) else r) & have) for r in MISSING_ATTRS): return 'requirement'
+    return None
+
 
 TAGS = ['rpc', 'get', 'filter', 'a', 'b', 'config', 'é', 'name', 'added-later']
 NSS = [BASE, 'urn:u', 'urn:v', 'urn:w']
@@ -98,6 +145,49 @@ def gen_attrs(rng):
     return None if not d and rng.random() < 0.5 else d
 
 
+FILL = ['é€😀x', 'ab', 'ж', '名前 ', 'x&amp;y', '😀', '0123456789']
+SHORT_BAD = ['', ' ', '<a>', '<a></b>', '<a/>junk', '<a b=1/>', 'plain words', '<a>&undefined;</a>', '<a><b></a></b>', '<a/><a/>',
+             '<?xml version="1.0"?>', '<a xmlns:p="urn:u"><q:b/></a>', '<a>\x01</a>', '<a k="1" k="2"/>', '<!-- only a comment -->']
+
+
+def gen_long_good(rng):
+    """a well-formed document of more than CHUNK characters (multi-octet characters, so that neither the 64K-character nor
+    the 64K-octet boundaries fall between characters of one width), as parts"""
+    fill = rng.choice(FILL); n = rng.randint(CHUNK + 500, 2 * CHUNK + 5000) // len(fill) + 1
+    pad = 'abc'[:rng.randrange(4)]
+    body = ['<a k="v&amp;w" xmlns:p="urn:u">' + pad + '<p:b>first</p:b>', [fill, n], '<c q="1">t</c>tail &lt; end<!--c--></a>']
+    if rng.random() < 0.4:
+        body = ['<rpc-reply xmlns="%s" message-id="%d"><data>' % (BASE, rng.randint(1, 99))] + body + ['</data></rpc-reply>']
+    if rng.random() < 0.3: body = ['<?xml version="1.0" encoding="UTF-8"?>\n'] + body
+    return body
+
+
+def gen_bad_text(rng, why, good):
+    """a text on which every parsing helper must raise for that reason; `good`: a well-formed text of the case (str)"""
+    fill = rng.choice(FILL); n = rng.randint(CHUNK + 10, 2 * CHUNK + 3000) // len(fill) + 1
+    if why == 'syntax':
+        r = rng.random()
+        if r < 0.30: return rng.choice(SHORT_BAD)
+        if r < 0.45: return good[:rng.randrange(1, max(2, len(good.rstrip()) - 1))] if len(good) < 5000 else '<a>'
+        # the defect is beyond the first 64K characters
+        tail = rng.choice(['</blub>', '', '</blob>junk', '<b></blob>', '&undefined;</blob>', '\x02</blob>', '</blob><blob/>', '<b k=1/></blob>'])
+        return ['<blob k="1">' + rng.choice(['', '<b/>', 'abc']), [fill, n], tail]
+    if why == 'encode':
+        sur = [rng.choice([0xDC80, 0xD800, 0xDFFF, 0xDCFF])]
+        r = rng.random()
+        if r < 0.25: return [rng.choice(['<a>', '<a k="', '', '<a><b/>']), sur, rng.choice(['</a>', '"/>', '<a/>'])]
+        if r < 0.35: return [good, sur]
+        # the character that cannot be encoded is beyond the first 64K (sometimes 128K) characters of a document that is fine up to there
+        parts = ['<blob k="1">', [fill, n * rng.choice([1, 1, 2])], sur, rng.choice(['rest</blob>', '', '<b/></blob>'])]
+        return parts if rng.random() < 0.8 else ['<blob>', [fill, n], '<b k="', sur, '"/></blob>']
+    if why == 'oversized':
+        # well-formed; one text node of more than TEXT_LIMIT octets: refused unless huge_tree
+        op, cl = rng.choice([('<a>', '</a>'), ('<a k="1"><b/>', '<c/>t</a>'),
+                             ('<rpc-reply xmlns="%s" message-id="1"><data><a>' % BASE, '</a></data></rpc-reply>')])
+        return [op, ['0123456789', TEXT_LIMIT // 10 + rng.randint(1, 50)], cl]
+    raise ValueError(why)
+
+
 class _Tree:
     def __init__(self, ti, exp, text, base, modelled):
         self.ti, self.base, self.modelled = ti, tuple(base), modelled
@@ -114,6 +204,15 @@ def gen_reparse(rng, g=None):
     exps = [X.indep_read(t) for t in texts]
     dix = [data_index(e) for e in exps]
     trees, steps = [], []
+    strs = list(texts)                       # the texts as strings (texts[i] may be parts)
+    ngood = len(texts)                       # the first texts: short and well-formed
+
+    def add_text(t):
+        texts.append(t); s = text_of(t); strs.append(s)
+        try: e = X.indep_read(s)
+        except (ValueError, UnicodeEncodeError): e = None
+        exps.append(e); dix.append(data_index(e) if e is not None else None)
+        return len(texts) - 1
 
     def vias(ti, huge=None):
         return sorted(v for v, (h, needs) in VIAS.items() if (huge is None or h == huge) and (not needs or dix[ti] is not None))
@@ -121,7 +220,32 @@ def gen_reparse(rng, g=None):
     def parse(ti, huge=None, via=None):
         via = via or rng.choice(vias(ti, huge))
         steps.append(['parse', via, ti])
-        trees.append(_Tree(ti, exps[ti], texts[ti], [dix[ti]] if VIAS[via][1] else [], True))
+        modelled = len(strs[ti]) <= MODEL_GOOD_MAX
+        trees.append(_Tree(ti, exps[ti], strs[ti], [dix[ti]] if VIAS[via][1] and modelled else [], modelled))
+
+    def fail_block():
+        """1-3 calls that must raise (several reasons, both parser variants, every helper), then good parses: first with the
+        parser variant of the last failure, mostly also with the other one, sometimes of a long document"""
+        h = False
+        for _ in range(rng.choice([1, 1, 2, 3])):
+            why = rng.choice(['syntax'] * 6 + ['encode'] * 8 + ['requirement'] * 4 + ['oversized'])
+            if why == 'requirement':
+                ti, via = rng.randrange(ngood), rng.choice(sorted(FAIL_VIAS))
+            elif why == 'oversized':
+                ti, via = add_text(gen_bad_text(rng, why, None)), rng.choice([v for v in sorted(VIAS) if not VIAS[v][0]])
+            else:
+                ti, via = add_text(gen_bad_text(rng, why, strs[0])), rng.choice(sorted(VIAS) + (sorted(FAIL_VIAS) if rng.random() < 0.15 else []))
+            h = (VIAS.get(via) or FAIL_VIAS[via])[0]
+            if why_fails(strs[ti], via, h, exps[ti]) != why:           # (a truncation that happens to be well-formed)
+                why = 'syntax'; texts[ti] = strs[ti] = '<a>'; exps[ti] = dix[ti] = None
+            steps.append(['fail', via, ti, why])
+        ti = rng.randrange(ngood)
+        if rng.random() < 0.3: ti = add_text(gen_long_good(rng))
+        parse(ti, h)
+        if rng.random() < 0.7: parse(ti, not h)
+        r = rng.random()
+        if r < 0.15: steps.append(['parse_root', rng.randrange(ngood), None])
+        elif r < 0.25: nce(rng.randrange(ngood), h)
 
     def nce(ti, huge):
         steps.append(['nce', bool(huge), ti])
@@ -178,28 +302,34 @@ def gen_reparse(rng, g=None):
             else:
                 steps.append(['remove', k, list(p)])
 
+    if rng.random() < 0.06: fail_block()         # the first parsing call of the process is one that raises
     if rng.random() < 0.1:
         # the NCElement document: built twice from one reply text, the first edited in between
         h = rng.random() < 0.5
+        k0 = len(trees)
         nce(0, h)
-        for _ in range(rng.randint(1, 2)): edit(0)
+        for _ in range(rng.randint(1, 2)): edit(k0)
         nce(0, h)
     else:
         huge = rng.random() < 0.6
+        k0 = len(trees)
         parse(0, huge)
-        for _ in range(rng.randint(1, 3)): edit(0)
+        for _ in range(rng.randint(1, 3)): edit(k0)
         r = rng.random()
-        if r < 0.12: steps.append(['to_xml', 0])
+        if r < 0.12: steps.append(['to_xml', k0])
         elif r < 0.24: steps.append(['parse_root', 0, rng.choice([None, ['touched', 'yes']])])
-        elif r < 0.36 and len(texts) > 1: parse(1)
+        elif r < 0.36 and ngood > 1: parse(1)
         parse(0, huge if rng.random() < 0.85 else None)
+    if rng.random() < 0.3: fail_block()
+    if rng.random() < 0.05: parse(add_text(gen_long_good(rng)))
     for _ in range(rng.randint(0, 4)):
         r = rng.random()
-        if r < 0.40: edit(rng.randrange(len(trees)))
-        elif r < 0.70: parse(rng.randrange(len(texts)))
-        elif r < 0.80: steps.append(['to_xml', rng.randrange(len(trees))])
-        elif r < 0.92: steps.append(['parse_root', rng.randrange(len(texts)), rng.choice([None, [rng.choice(SET_NAMES[:4]), 'x']])])
-        else: nce(rng.randrange(len(texts)), rng.random() < 0.5)
+        if r < 0.38: edit(rng.randrange(len(trees)))
+        elif r < 0.64: parse(rng.randrange(ngood))
+        elif r < 0.74: steps.append(['to_xml', rng.randrange(len(trees))])
+        elif r < 0.86: steps.append(['parse_root', rng.randrange(ngood), rng.choice([None, [rng.choice(SET_NAMES[:4]), 'x']])])
+        elif r < 0.92: nce(rng.randrange(ngood), rng.random() < 0.5)
+        else: fail_block()
     if rng.random() < 0.6:
         # whatever happened, the first text still reads as it reads - through both parser variants
         for h in rng.sample([False, True], 2): parse(0, h)
